@@ -115,6 +115,62 @@ theorem C20_resolved_wellformed (ex : Str → Bool) (q r : Query) (hq : wf q = t
     wf r = true :=
   resolve_wf ex q r hq h
 
+
+/-- Entries that are not among the query's four candidates have no influence on its resolution: two backends that
+    agree on the four candidate keys resolve the query alike (for any other difference between them). -/
+theorem C20_resolve_depends_only_on_candidates (ex ex' : Str → Bool) (q : Query)
+    (h : ∀ c ∈ specCandidates q, ex (absRaw c) = ex' (absRaw c)) : resolve ex q = resolve ex' q := by
+  rw [C20_first_existing, C20_first_existing]
+  generalize specCandidates q = l at h
+  induction l with
+  | nil => rfl
+  | cons a l ih =>
+    have ha := h a (by simp)
+    simp only [List.find?_cons, ha]
+    cases ex' (absRaw a) with
+    | true => rfl
+    | false => exact ih (fun c hc => h c (List.mem_cons_of_mem _ hc))
+
+/-- Adding entries never loses a resolution and never makes it less specific: if every key that exists in `ex` exists in
+    `ex'` and `q` resolves to `r` in `ex`, it resolves in `ex'` to a candidate at or before `r` in the order. -/
+theorem C20_resolve_monotone (ex ex' : Str → Bool) (q r : Query) (hsub : ∀ k, ex k = true → ex' k = true)
+    (h : resolve ex q = some r) :
+    ∃ r' before after, resolve ex' q = some r' ∧ specCandidates q = before ++ r :: after ∧ r' ∈ before ++ [r] := by
+  obtain ⟨before, after, hsplit, hb⟩ := C20_most_specific ex q r h
+  have hr : ex' (absRaw r) = true := hsub _ (C20_resolved_exists ex q r h).1
+  cases h' : resolve ex' q with
+  | none =>
+    have := (C20_unresolved_iff ex' q).1 h' r (by rw [hsplit]; simp)
+    rw [hr] at this; cases this
+  | some r' =>
+    refine ⟨r', before, after, rfl, hsplit, ?_⟩
+    obtain ⟨b', a', hsplit', hb'⟩ := C20_most_specific ex' q r' h'
+    -- r' is the FIRST existing candidate in ex'; r exists in ex'; so r' is not after r
+    rw [C20_first_existing] at h'
+    have hfind := h'
+    rw [hsplit, List.find?_append] at hfind
+    cases hfb : before.find? (fun c => ex' (absRaw c)) with
+    | some x =>
+      rw [hfb] at hfind; simp at hfind; subst hfind
+      exact List.mem_append_left _ (List.mem_of_find?_eq_some hfb)
+    | none =>
+      rw [hfb] at hfind; simp [hr] at hfind; subst hfind; simp
+
+/-- What the walk returns is a fixed point: asking again for the resolved query returns it unchanged. -/
+theorem C20_resolve_idempotent (ex : Str → Bool) (q r : Query) (h : resolve ex q = some r) : resolve ex r = some r := by
+  have he := (C20_resolved_exists ex q r h).1
+  rw [C20_first_existing]
+  simp [specCandidates, he]
+
+/-- The hypotheses are met by a real situation: only the any/any entry exists, the query resolves to it; with the
+    role-specific entry added the same query resolves to that one, which precedes any/any in the order. -/
+example :
+    let q : Query := ⟨['q', 'c'], 1, ['f', 'l', 'p'], ['t', 'p', 'c']⟩
+    let anyAny := absRaw { q with runType := fallbackRunType, role := fallbackRoleName }
+    let anyRt := absRaw { q with runType := fallbackRunType }
+    resolve (fun k => k == anyAny) q = some { q with runType := fallbackRunType, role := fallbackRoleName } ∧
+    resolve (fun k => k == anyAny || k == anyRt) q = some { q with runType := fallbackRunType } := by decide
+
 /-! ## query strings -/
 
 /-- NewQuery accepts exactly the denotation of the anchored pattern on the trimmed string, with a known run-type name,
